@@ -58,6 +58,19 @@ pub fn generic_and_family_stats(
             case.dedup = true;
             check(&case, ctx);
         }
+        // a substituted generic INSIDE the generic definition: its arguments are resolved with the definition's
+        // parameters in scope (`U8Keyed<_0>`, not the first instantiation's argument)
+        if s.fields.iter().any(|f| matches!(f.ty, crate::spm::Ty::BTreeMap(..))) {
+            let mut spec = settings[0].1.clone();
+            spec.substitutes.push(("BTreeMap<K, V>".into(), "::ext::U8Keyed<V>".into()));
+            let mut case = Case::new(
+                RegSrc::Prog(prog.clone()),
+                spec,
+                "D-generic settings subst=btreemap-values",
+            );
+            case.dedup = true;
+            check(&case, ctx);
+        }
     }));
     let f = DFamily {
         max_members: 2,
